@@ -12,22 +12,22 @@ import (
 )
 
 // recHash is a recording hash sink: its "sum" is everything written to it.
-type recHash struct{ b []byte }
+type vh_recHash struct{ b []byte }
 
-func (r *recHash) Write(p []byte) (int, error) { r.b = append(r.b, p...); return len(p), nil }
-func (r *recHash) Sum(b []byte) []byte         { return append(b, r.b...) }
-func (r *recHash) Reset()                      { r.b = nil }
-func (r *recHash) Size() int                   { return len(r.b) }
-func (r *recHash) BlockSize() int              { return 1 }
+func (r *vh_recHash) Write(p []byte) (int, error) { r.b = append(r.b, p...); return len(p), nil }
+func (r *vh_recHash) Sum(b []byte) []byte         { return append(b, r.b...) }
+func (r *vh_recHash) Reset()                      { r.b = nil }
+func (r *vh_recHash) Size() int                   { return len(r.b) }
+func (r *vh_recHash) BlockSize() int              { return 1 }
 
-var _ hash.Hash = &recHash{}
+var _ hash.Hash = &vh_recHash{}
 
-func headerOf(st *types.Stat) []byte {
+func vh_headerOf(st *types.Stat) []byte {
 	return []byte("H|" + st.Path + "|" + st.Linkname + "|" + string([]byte{byte(st.Mode >> 24), byte(st.Mode >> 16), byte(st.Mode >> 8), byte(st.Mode),
 		byte(st.Gid >> 24), byte(st.Gid >> 16), byte(st.Gid >> 8), byte(st.Gid)}) + "|")
 }
 
-type noteEvent struct {
+type vh_noteEvent struct {
 	kind ChangeKind
 	path string
 	stat *types.Stat
@@ -42,25 +42,25 @@ func VH_C05_notify() {
 	maxb := v.Param("MAXB", 1)
 	m.Reset()
 	dest := m.Root("dest")
-	src := symSource(maxb)
+	src := vh_symSource(maxb)
 	// FILTER=1: the receiver rewrites the group of every entry (as callers normalising ownership
 	// do). The disk then carries the rewritten group, notifications and digests the stat as sent.
 	useFilter := v.Param("FILTER", 0) != 0
 	const filterGid = 42
-	prior := symPriorDestGid(dest, src, useFilter, filterGid)
+	prior := vh_symPriorDestGid(dest, src, useFilter, filterGid)
 	oldSnap := m.Snapshot(dest)
-	recs := map[string]*recHash{}
-	var events []noteEvent
+	recs := map[string]*vh_recHash{}
+	var events []vh_noteEvent
 	opt := ReceiveOpt{
 		ContentHasher: func(st *types.Stat) (hash.Hash, error) {
-			r := &recHash{}
-			r.Write(headerOf(st))
+			r := &vh_recHash{}
+			r.Write(vh_headerOf(st))
 			recs[st.Path] = r
 			return r, nil
 		},
 		Filter: nil,
 		NotifyHashed: func(kind ChangeKind, p string, fi os.FileInfo, err error) error {
-			ev := noteEvent{kind: kind, path: p}
+			ev := vh_noteEvent{kind: kind, path: p}
 			if fi != nil {
 				ev.stat, _ = fi.Sys().(*types.Stat)
 				if d, ok := fi.(interface{ Digest() digest.Digest }); ok {
@@ -78,7 +78,7 @@ func VH_C05_notify() {
 		}
 	}
 	ctx := context.Background()
-	rcv, snd := newStreamPair(ctx, 256)
+	rcv, snd := vh_newStreamPair(ctx, 256)
 	var recvErr error
 	done := make(chan struct{})
 	go func() {
@@ -124,7 +124,7 @@ func VH_C05_notify() {
 	for _, e := range src {
 		p := e.stat.Path
 		n := 0
-		var ev noteEvent
+		var ev vh_noteEvent
 		for _, x := range events {
 			if x.path == p && x.kind != ChangeKindDelete {
 				n++
@@ -143,7 +143,7 @@ func VH_C05_notify() {
 			if useFilter {
 				effGid = filterGid
 			}
-			if v.And(goModeToUnixPerm(e.stat.Mode) == 0700, e.stat.Uid == 7, effGid == 7) {
+			if v.And(vh_goModeToUnixPerm(e.stat.Mode) == 0700, e.stat.Uid == 7, effGid == 7) {
 				v.Cover("dir-unchanged")
 				v.Assert(n == 0, "an unchanged existing directory is not reported")
 				continue
@@ -157,9 +157,9 @@ func VH_C05_notify() {
 		if n != 1 {
 			continue
 		}
-		v.Assert(ev.stat != nil && specIdentity(ev.stat, e.stat) && ev.stat.Path == p, "the event carries the new metadata as sent")
+		v.Assert(ev.stat != nil && vh_specIdentity(ev.stat, e.stat) && ev.stat.Path == p, "the event carries the new metadata as sent")
 		// digest: header as sent followed by exactly the bytes now stored (header only without content)
-		want := headerOf(e.stat)
+		want := vh_headerOf(e.stat)
 		if os.FileMode(e.stat.Mode)&os.ModeType == 0 && e.stat.Linkname == "" {
 			for i := range newSnap {
 				if newSnap[i].Path == p {
@@ -195,7 +195,7 @@ func VH_C05_notify() {
 		top := true
 		for j := range oldSnap {
 			a := oldSnap[j].Path
-			if !isUnder(q, a) {
+			if !vh_isUnder(q, a) {
 				continue
 			}
 			stillDir := false
